@@ -62,7 +62,15 @@ META = {
              "holder instance, and between the two assignments the object's flag is flipped, an "
              "offer is registered on the live manager (own stratum: a null adapter for the object's "
              "own type), or an ABC registration is made; the stored value and the shadow after the "
-             "second assignment are judged against the enumeration at that moment. Every (object, target "
+             "second assignment are judged against the enumeration at that moment. One graph in ten "
+             "belongs to the stratum 're-entrant factories' (<= 5 offers, <= 25 simple sequences): 1-2 "
+             "factories, while the manager runs them, ask the same manager (adapt / supports_protocol / "
+             "global adapt / assignment to a Supports, AdaptsTo, List(Supports) trait of a fresh holder) "
+             "about a companion object - another object of the adaptee's type or of a fixed class, for "
+             "the offer's own target or a fixed class - down to a depth budget of 1-2; they ignore the "
+             "answer, or succeed iff / iff not the companion is supported; every nested answer is judged "
+             "against the brute force one level deeper, which also feeds the model of those factories. "
+             "Every (object, target "
              "class) query goes through adapt / adapt+default / supports_protocol / the global "
              "functions and through Supports, AdaptsTo, Instance(adapt=yes|default), List(Supports), "
              "Union(Supports, Int) assignment and the Python-level validate, each judged against the "
@@ -96,7 +104,17 @@ META = {
                   "reassignments_after_offer-registered": 600,
                   "reassignments_after_null-adapter-for-own-type-registered": 250,
                   "reassignments_after_abc-registered": 240,
-                  "live_offer_registrations": 850},
+                  "live_offer_registrations": 850,
+                  "graphs_nested_stratum": 100,
+                  "nested_requests": 2000,
+                  "nested_requests_same_key_as_pending_with_chain": 700,
+                  "nested_requests_depth2plus": 300,
+                  "nested_requests_deciding_a_conditional_factory": 1200,
+                  "reentrant_factory_declined_because_of_the_nested_answer": 650,
+                  "nested_requests_status_none": 280,
+                  "nested_requests_via_Supports": 220,
+                  "nested_requests_via_AdaptsTo": 250,
+                  "nested_requests_via_supports_protocol": 160},
         "thorough": {"evaluations": 2700000, "adapt_results_judged": 1350000, "chains_found": 135000,
                      "chains_len2plus": 22500, "chains_len3plus": 3300, "failures_checked": 195000,
                      "provides_checked": 225000, "specificity_checked": 18000,
@@ -121,7 +139,17 @@ META = {
                      "reassignments_after_offer-registered": 18000,
                      "reassignments_after_null-adapter-for-own-type-registered": 7500,
                      "reassignments_after_abc-registered": 7200,
-                     "live_offer_registrations": 25500},
+                     "live_offer_registrations": 25500,
+                     "graphs_nested_stratum": 3000,
+                     "nested_requests": 60000,
+                     "nested_requests_same_key_as_pending_with_chain": 21000,
+                     "nested_requests_depth2plus": 9000,
+                     "nested_requests_deciding_a_conditional_factory": 36000,
+                     "reentrant_factory_declined_because_of_the_nested_answer": 19500,
+                     "nested_requests_status_none": 8400,
+                     "nested_requests_via_Supports": 6600,
+                     "nested_requests_via_AdaptsTo": 7500,
+                     "nested_requests_via_supports_protocol": 4800},
     },
     "assumptions": [
         "issubclass is the 'provides' relation (as AdaptationManager.provides_protocol documents)",
@@ -129,7 +157,10 @@ META = {
         "flag fixed at creation, so a chain whose prefix fails fails, and the model of the factories "
         "used by the enumeration (evaluated for that very object) is exact",
         "adapt is judged against the hierarchy and offers as they are at the time of the call, "
-        "whatever was adapted before on the same manager",
+        "whatever was adapted before on the same manager and whatever request is in progress",
+        "re-entrant factories never recurse unboundedly by construction (nested requests are for a "
+        "companion object, under a depth budget); nested answers are judged for existence, validity "
+        "and minimality, single-step specificity at top level only",
         "class names are unique within a case (offers are keyed by module.name by design)",
         "path length = number of offers used, null (register_provides) adapters included",
         "the single-step specificity rule is judged only on hierarchies where issubclass is "
@@ -151,7 +182,7 @@ class NonTermination(BaseException):
 
 
 class _Steps:
-    __slots__ = ("armed", "n", "limit", "tripped")
+    __slots__ = ("armed", "n", "limit", "tripped", "last_used")
 
 
 ST = _Steps()
@@ -159,6 +190,7 @@ ST.armed = False
 ST.n = 0
 ST.limit = 0
 ST.tripped = False
+ST.last_used = 0
 
 
 def tick():
@@ -200,11 +232,16 @@ RAW_METAS = (type, abc.ABCMeta, type(HasTraits), type(Interface))
 
 
 def guarded(fn, limit, profiled):
-    """Run fn under the step budget -> ('ok', v) | ('exc', e) | ('nonterm', None)."""
+    """Run fn under the step budget -> ('ok', v) | ('exc', e) | ('nonterm', None).
+    Re-entrant: a nested call (made from inside a factory) has its own budget
+    and restores the outer counter and profile function."""
+    saved = (ST.n, ST.limit, ST.armed, ST.tripped)
+    prev_profile = sys.getprofile() if profiled else None
     ST.n = 0
     ST.limit = limit
     ST.tripped = False
     ST.armed = True
+    tripped = False
     if profiled:
         sys.setprofile(_profile)
     try:
@@ -212,15 +249,17 @@ def guarded(fn, limit, profiled):
             out = ("ok", fn())
         finally:
             if profiled:
-                sys.setprofile(None)
-            ST.armed = False
+                sys.setprofile(prev_profile)
+            tripped = ST.tripped
+            ST.last_used = ST.n
+            ST.n, ST.limit, ST.armed, ST.tripped = saved
     except NonTermination:
         return ("nonterm", None)
     except CaseTimeout:
         raise
     except Exception as e:  # noqa: BLE001 - outcome classification
         out = ("exc", e)
-    if ST.tripped:
+    if tripped:
         return ("nonterm", None)
     return out
 
@@ -257,6 +296,22 @@ def base_of(x):
 
 IDENTITY_KINDS = ("identity", "provides", "idraw")
 FLAG_KINDS = ("flagset", "flagclear")      # depend on a per-OBJECT attribute of the adaptee
+# re-entrant factories: while running they ask the same manager about ANOTHER
+# object (a companion); nestedjudge ignores the answer, nestedcond succeeds iff
+# the companion is supported, nestedneg iff it is not (own stratum only)
+NEST_KINDS = ("nestedjudge", "nestedcond", "nestedneg")
+NEST_ROUTES = ("adapt-none", "adapt-none", "adapt", "supports_protocol", "global-adapt",
+               "Supports", "AdaptsTo", "ListSupports")
+
+
+class _Nest:
+    """Per-case state shared with the re-entrant factories."""
+    depth = 0
+    maxd = 0
+    declined = 0
+
+
+NEST = _Nest()
 KINDS = (["always"] * 40 + ["never"] * 8 + ["even"] * 6 + ["odd"] * 6 + ["raw"] * 6 +
          ["flagset"] * 8 + ["flagclear"] * 8 +
          ["short"] * 5 + ["notafter"] * 5 + ["identity"] * 6 + ["provides"] * 8 +
@@ -271,11 +326,20 @@ class Off:
         self.frm, self.to, self.kind, self.param = frm, to, kind, param
         self.how = None
 
-    def model(self, chain, flag=0):
+    def model(self, chain, flag=0, src=None, depth=0, oracle=None):
         """Pure model of the factory on the adaptee's recorded chain and on the
         per-object flag of the original adaptee: None (refuses), the same chain
-        (identity), or the extended chain."""
+        (identity), or the extended chain.  Re-entrant kinds ask `oracle` (the
+        brute force itself, one level deeper) what the nested request yields."""
         k = self.kind
+        if k in NEST_KINDS:
+            if depth < NEST.maxd and k != "nestedjudge":
+                ccls = src if self.param[0] == "same" else self.param[0]
+                tcls = self.to if self.param[1] == "to" else self.param[1]
+                supported = oracle(ccls, tcls, depth + 1) != "none"
+                if supported != (k == "nestedcond"):
+                    return None
+            return chain + (self.idx,)
         if k == "flagset" and not flag & self.param:
             return None
         if k == "flagclear" and flag & self.param:
@@ -299,7 +363,10 @@ class Off:
         return chain + (self.idx,)
 
     def spec(self):
-        return [self.idx, self.frm.__name__, self.to.__name__, self.kind, self.param, self.how]
+        param = self.param
+        if self.kind in NEST_KINDS:
+            param = [getattr(x, "__name__", x) for x in param]
+        return [self.idx, self.frm.__name__, self.to.__name__, self.kind, param, self.how]
 
 
 def real_factory(off):
@@ -319,6 +386,24 @@ def real_factory(off):
                 tick()
                 super().__init__(adaptee, **traits)
         return TrAd
+
+    if off.kind in NEST_KINDS:
+        def nesting_factory(adaptee):
+            tick()
+            base = base_of(adaptee)
+            if NEST.depth < NEST.maxd:
+                ccls = type(base) if off.param[0] == "same" else off.param[0]
+                tcls = off.to if off.param[1] == "to" else off.param[1]
+                supported = NEST.request(off, base, ccls, tcls)
+                if off.kind != "nestedjudge" and supported != (off.kind == "nestedcond"):
+                    NEST.declined += 1
+                    return None
+            a = Ad()
+            a.chain = chain_of(adaptee) + (off.idx,)
+            a.base = base
+            a.to = off.to
+            return a
+        return nesting_factory
 
     def factory(adaptee):
         tick()
@@ -543,7 +628,7 @@ def count_paths(src, offers, sub, cap):
     return n[0]
 
 
-def enumerate_chains(src, offers, sub, flag=0):
+def enumerate_chains(src, offers, sub, flag=0, depth=0, oracle=None):
     """Brute force: every sequence of distinct offers, each applicable to the
     protocol reached so far, whose (model) factories all succeed.
     -> (succ [(seq, chain, to_protocol)], fail [(seq, to_protocol)])."""
@@ -553,7 +638,7 @@ def enumerate_chains(src, offers, sub, flag=0):
         for o in offers:
             if used >> o.idx & 1 or not sub(proto, o.frm):
                 continue
-            c2 = o.model(chain, flag)
+            c2 = o.model(chain, flag, src, depth, oracle)
             s2 = seq + (o.idx,)
             if c2 is None:
                 fail.append((s2, o.to))
@@ -566,7 +651,8 @@ def enumerate_chains(src, offers, sub, flag=0):
 
 class Expect:
     __slots__ = ("status", "L", "minset", "allset", "singles", "nmin", "ident_in_min",
-                 "failing_candidate", "spec_relevant", "order_class", "spec_not_judged", "flag")
+                 "failing_candidate", "spec_relevant", "order_class", "spec_not_judged", "flag",
+                 "single_chains")
 
 
 def analyse(src, tgt, offers, succ, fail, sub, transitive=True, flag=0):
@@ -576,6 +662,7 @@ def analyse(src, tgt, offers, succ, fail, sub, transitive=True, flag=0):
     e.L = 0
     e.minset = e.allset = frozenset()
     e.singles = []
+    e.single_chains = {}
     e.nmin = 0
     e.ident_in_min = e.failing_candidate = e.spec_relevant = False
     e.order_class = "-"
@@ -597,6 +684,7 @@ def analyse(src, tgt, offers, succ, fail, sub, transitive=True, flag=0):
     e.failing_candidate = any(len(seq) <= e.L and sub(to, tgt) for seq, to in fail)
     if e.L == 1:
         e.singles = [offers[seq[0]] for seq, chain in mins]
+        e.single_chains = {seq[0]: chain for seq, chain in mins}
         e.spec_relevant = any(a is not b and sub(a.frm, b.frm) and not sub(b.frm, a.frm)
                               for a in e.singles for b in e.singles)
         if e.spec_relevant and not transitive:
@@ -655,7 +743,7 @@ def judge_success(e, d, offers, sub):
     # non-zero only when null adapters make a sequence of more offers cheaper
     INFO["extra_adapter_objects"] = len(ch) - min(len(c) for c in e.allset)
     if e.L == 1 and e.spec_relevant:
-        cands = [o for o in e.singles if o.model((), e.flag) == ch]
+        cands = [o for o in e.singles if e.single_chains[o.idx] == ch]
         if cands and all(any(o2 is not c and sub(o2.frm, c.frm) and not sub(c.frm, o2.frm)
                              for o2 in e.singles) for c in cands):
             return "specificity/base-type-offer-chosen/" + e.order_class
@@ -811,6 +899,10 @@ def run_case(ctx, gi):
     # own stratum (1 graph in 10) for the shape "a class providing several
     # protocols, offers from several of them to one target"
     spec_stratum = gi % 10 == 5
+    # own stratum (1 graph in 10): small graphs with re-entrant factories that
+    # ask the same manager about another object while they run
+    nest_stratum = gi % 10 == 7
+    path_cap = 25 if nest_stratum else PATH_CAP
     flavour = rng.choice(FLAVOURS)
     profiled = rng.random() < 0.12
     metas = RAW_METAS if profiled else COUNTED_METAS
@@ -841,14 +933,29 @@ def run_case(ctx, gi):
                          for c in classes if sub(b, c))
         if not transitive:
             ctx.count("graphs_with_nontransitive_issubclass")
-        offers, strategy = gen_offers(rng, classes, sub, rng.choice((3, 5, 6, 7, 8, 8)), spec_stratum)
+        nmax = rng.choice((3, 5, 6, 7, 8, 8))
+        if nest_stratum:
+            nmax = rng.choice((2, 3, 4, 5))
+            NEST.maxd = rng.choice((1, 1, 2))
+        offers, strategy = gen_offers(rng, classes, sub, nmax, spec_stratum)
+        if nest_stratum:
+            if not offers:
+                offers.append(Off(rng.choice(classes), rng.choice(classes), "always"))
+            for o in rng.sample(offers, min(len(offers), rng.choice((1, 1, 2)))):
+                o.kind = rng.choice(NEST_KINDS)
+                # (companion type: that of the adaptee | a fixed class,
+                #  nested target: the offer's own target | a fixed class, route)
+                o.param = ("same" if rng.random() < 0.6 else rng.choice(classes),
+                           "to" if rng.random() < 0.6 else rng.choice(classes),
+                           rng.choice(NEST_ROUTES))
+            offers.sort(key=lambda o: o.kind not in NEST_KINDS)   # trimming drops the others first
         finish_offers(rng, offers)
         # keep the search space small enough to enumerate (and to bound the
         # step budget): drop trailing offers while some source has too many
         # applicable simple sequences
         while offers:
             try:
-                npaths = {c: count_paths(c, offers, sub, PATH_CAP) for c in classes}
+                npaths = {c: count_paths(c, offers, sub, path_cap) for c in classes}
                 break
             except _Cap:
                 offers.pop()
@@ -882,7 +989,9 @@ def run_case(ctx, gi):
         set_global_adaptation_manager(m)
         H = make_holder(tag, classes)
         h = H()
-        desc = {"flavour": flavour, "profiled": profiled, "strategy": strategy, "stratum": "spec" if spec_stratum else "main",
+        desc = {"flavour": flavour, "profiled": profiled, "strategy": strategy,
+                "stratum": "spec" if spec_stratum else "nested" if nest_stratum else "main",
+                "nesting_depth_budget": NEST.maxd,
                 "classes": [[c.__name__, [b.__name__ for b in c.__mro__[1:-1]],
                              type(c).__name__] for c in classes],
                 "virtual": [[a.__name__, b.__name__] for a in classes for b in classes
@@ -926,7 +1035,7 @@ def run_case(ctx, gi):
         last_seen = {}                              # (src, ti) -> (oi, status, minset, observed chain)
         live = {"offers": 0, "abc": 0, "general": 0, "own_null": 0}
 
-        def recount(candidate_offers, cap=4 * PATH_CAP):
+        def recount(candidate_offers, cap=4 * path_cap):
             """npaths for the (changed) graph, or None when it became too large."""
             try:
                 return {c2: count_paths(c2, candidate_offers, sub, cap) for c2 in classes}
@@ -990,7 +1099,7 @@ def run_case(ctx, gi):
             o.idx = len(offers)
             if o.kind in FLAG_KINDS:
                 o.param = rng.choice((1, 2))
-            np2 = recount(offers + [o], PATH_CAP)
+            np2 = recount(offers + [o], path_cap)
             if np2 is None:
                 return "none"
             offers.append(o)
@@ -1014,24 +1123,118 @@ def run_case(ctx, gi):
             ctx.count("live_offer_registrations")
             return "done"
 
-        def expectation(oi, ti):
-            src, obj, flag = objs[oi]
-            if (src, flag) not in enum_cache:
-                enum_cache[(src, flag)] = enumerate_chains(src, offers, sub, flag)
-            succ, fail = enum_cache[(src, flag)]
-            np_ = npaths[src]
+        def expect(cls, flag, tgt, depth=0):
+            """Brute-force expectation for an object of class cls with that flag,
+            asked at nesting depth `depth`, and the step budget of the call."""
+            key = (cls, flag, depth)
+            if key not in enum_cache:
+                enum_cache[key] = enumerate_chains(cls, offers, sub, flag, depth, nested_status)
+            succ, fail = enum_cache[key]
+            np_ = npaths[cls]
             # generous budget, proportional to the number of simple applicable
             # sequences a complete search has to visit.  Calibration on the
             # healthy tree: at most 14 counted subclass checks / 46 profiled
             # calls per such sequence, i.e. >= 100x headroom (the counter
-            # calls_using_over_5pct_of_step_budget stays 0)
+            # calls_using_over_5pct_of_step_budget stays 0).  Nested requests
+            # run under their own budget and are not counted in the outer one.
             limit = (20000 + 5000 * np_) if profiled else (5000 + 1500 * np_)
-            return analyse(src, classes[ti], offers, succ, fail, sub, transitive, flag), limit
+            return analyse(cls, tgt, offers, succ, fail, sub, transitive, flag), limit
+
+        def nested_status(ccls, tcls, depth):
+            """What a nested request for the companion of class ccls yields."""
+            return expect(ccls, compflag[ccls], tcls, depth)[0].status
+
+        def expectation(oi, ti):
+            src, obj, flag = objs[oi]
+            return expect(src, flag, classes[ti], 0)
+
+        # ---- re-entrancy: companions (never a query object) and the nested request
+        compflag = {c: rng.randrange(4) for c in classes} if nest_stratum else {}
+        companions = {}
+        nested_complaints = []
+        if nest_stratum:
+            ctx.count("graphs_nested_stratum")
+            try:
+                for c in classes:
+                    pair = (c(), c())
+                    for x in pair:
+                        x._c17_flag = compflag[c]
+                    companions[c] = pair
+            except (TypeError, AttributeError):
+                NEST.maxd = 0
+            if not any(o.kind in NEST_KINDS for o in offers):
+                ctx.count("graphs_nested_stratum_without_reentrant_offer")
+
+        def nested_request(off, base, ccls, tcls):
+            """Called by a re-entrant factory while the manager runs it: ask the
+            same manager about the companion (another object), judge the answer
+            against the brute force one level deeper, return 'supported'."""
+            saved_armed = ST.armed
+            ST.armed = False                  # the oracle's own work is not the search's
+            NEST.depth += 1
+            try:
+                pair = companions[ccls]
+                comp = pair[1] if pair[0] is base else pair[0]
+                e, limit = expect(ccls, compflag[ccls], tcls, NEST.depth)
+                # single-step specificity is judged at top level only (one key per defect)
+                e.spec_relevant = False
+                route = off.param[2]
+                ctx.count("nested_requests")
+                ctx.count("nested_requests_status_" + e.status)
+                ctx.count("nested_requests_via_" + route)
+                if NEST.depth >= 2:
+                    ctx.count("nested_requests_depth2plus")
+                if (ccls, tcls) in NEST.pending:
+                    ctx.count("nested_requests_same_type_and_protocol_as_a_pending_request")
+                    if e.status == "chain":
+                        ctx.count("nested_requests_same_key_as_pending_with_chain")
+                if off.kind != "nestedjudge":
+                    ctx.count("nested_requests_deciding_a_conditional_factory")
+                NEST.pending.append((ccls, tcls))
+                try:
+                    if route in MANAGER_ROUTES:
+                        c, oc = check_manager_route(route, m, comp, tcls, e, offers, sub, limit, profiled)
+                        layer = "manager/"
+                    else:
+                        c, oc = check_trait_route(route, H(), classes.index(tcls), comp, e, offers, sub,
+                                                  limit, profiled, ctx)
+                        layer = "trait/%s/" % route
+                finally:
+                    NEST.pending.pop()
+                ctx.ev()
+                ctx.sig(flavour, "nested", route, NEST.depth, e.status, min(e.L, 5), off.kind, oc, bool(c),
+                        (ccls, tcls) in NEST.pending)
+                if c:
+                    nested_complaints.append(
+                        (layer + c, {"nested_route": route, "depth": NEST.depth, "companion_class": ccls.__name__,
+                                     "companion_flag": compflag[ccls], "nested_target": tcls.__name__,
+                                     "expected_status": e.status, "min_offers": e.L,
+                                     "admissible": sorted(e.minset)[:6], "outcome": oc,
+                                     "observed": INFO["last"], "requested_by_offer": off.idx,
+                                     "pending_requests": [(a.__name__, b.__name__) for a, b in NEST.pending]}))
+                return e.status != "none"
+            finally:
+                NEST.depth -= 1
+                ST.armed = saved_armed
+
+        NEST.request = nested_request
+        NEST.pending = []
 
         def report(layer, route, c, oc, e, hist, oi, ti, qi, limit):
             """Record a violation; True when the case must stop (non-termination)."""
             src, obj, flag = objs[oi]
             tgt = classes[ti]
+            if layer == "n":
+                key, info = c
+                ctx.violation(
+                    "nested/" + key,
+                    "%s for a request made from inside a factory (%s) while adapting an instance of %s (object "
+                    "flag %d) to %s via %s; offers=%s; classes=%s; virtual=%s; depth budget=%d"
+                    % (key, info, src.__name__, flag, tgt.__name__, route, desc["offers"], desc["classes"],
+                       desc["virtual"], NEST.maxd),
+                    dict(desc, source=src.__name__, object_flag=flag, history=hist, query_index=qi,
+                         target=tgt.__name__, route=route, nested=info))
+                return "nontermination" in key
             if route != "adapt" and not c.startswith("nontermination"):
                 # same complaint from the manager itself for this very
                 # object and target => it is the manager's defect, and is
@@ -1125,8 +1328,10 @@ def run_case(ctx, gi):
             observed_adapt = None
             stop = False
             violated = False
+            NEST.pending[:] = [(src, tgt)]          # the outer request of this query
             for layer, route in routes:
                 INFO["last"] = None
+                del nested_complaints[:]
                 if layer == "m":
                     INFO["extra_adapter_objects"] = 0
                     c, oc = check_manager_route(route, m, obj, tgt, e, offers, sub, limit, profiled)
@@ -1142,13 +1347,15 @@ def run_case(ctx, gi):
                 ctx.ev()
                 if INFO["last"] is not None and INFO["last"][0] in ("obj", "ad"):
                     observed_adapt = INFO["last"][1]
-                if ST.n * 20 > limit:
+                if ST.last_used * 20 > limit:
                     ctx.count("calls_using_over_5pct_of_step_budget")
                 if e.status != "provides" or c:
                     ctx.sig(flavour, route, e.status, min(e.L, 5),
                             min(len(next(iter(e.minset))), 5) if e.minset else -1,
                             min(e.nmin, 3), e.ident_in_min, e.failing_candidate,
                             e.spec_relevant, oc, bool(c), hist)
+                if nested_complaints:
+                    layer, c = "n", nested_complaints[0]
                 if c:
                     violated = True
                     stop = report(layer, route, c, oc, e, hist, oi, ti, qi, limit)
@@ -1163,10 +1370,14 @@ def run_case(ctx, gi):
             if not violated and rng.random() < 0.08:
                 rroute = rng.choice(REASSIGN_ROUTES)
                 INFO["last"] = None
+                del nested_complaints[:]
                 c1, oc1 = check_trait_route(rroute, h, ti, obj, e, offers, sub, limit, profiled, ctx)
                 ctx.ev()
                 ctx.count("trait_assignments")
-                if c1:
+                if nested_complaints:
+                    if report("n", rroute, nested_complaints[0], oc1, e, hist, oi, ti, qi, limit):
+                        return
+                elif c1:
                     if report("t", rroute, c1, oc1, e, hist, oi, ti, qi, limit):
                         return
                 else:
@@ -1203,7 +1414,12 @@ def run_case(ctx, gi):
                         change, "-answer-changed" if answer_changed else "")
                     INFO["last"] = None
                     slot_before = adapted_slot(rroute, ti)
+                    del nested_complaints[:]
                     c2, oc2 = check_trait_route(rroute, h, ti, obj, e2, offers, sub, limit, profiled, ctx)
+                    if nested_complaints:
+                        if report("n", rroute, nested_complaints[0], oc2, e2, hist, oi, ti, qi, limit):
+                            return
+                        c2 = None
                     if c2 and not c2.startswith("nontermination") and slot_before is not MISSING \
                             and adapted_slot(rroute, ti) is slot_before:
                         # observation, not inference: the adapted value exposed by
@@ -1234,6 +1450,12 @@ def run_case(ctx, gi):
         if sample_queries and len(ctx.samples) < 4:
             ctx.sample(dict(desc, queries=sample_queries))
     finally:
+        if NEST.declined:
+            ctx.count("reentrant_factory_declined_because_of_the_nested_answer", NEST.declined)
+            NEST.declined = 0
+        NEST.maxd = 0
+        NEST.depth = 0
+        NEST.request = None
         set_global_adaptation_manager(prev_manager)
         if modname is not None:
             sys.modules.pop(modname, None)
